@@ -70,69 +70,59 @@ func (a *Analyzer) QualifiedResolution() []RuleResult {
 	if len(evals) == 0 {
 		return append(out, RuleResult{"B-QUALIFIED", fn, "symlinks are resolved", "", false, "no call to filepath.EvalSymlinks"})
 	}
-	// success returns reachable from an EvalSymlinks call must return its first result
-	n := 0
+	// every success return of the FILE branch (the blocks dominated by the filepath.IsAbs test on the name) must return the first
+	// result of an EvalSymlinks call — also a return that is not preceded by one on its path (a shortcut around the resolution)
+	var anchor *ssa.BasicBlock
+	for _, c := range Calls(f) {
+		if shortCallee(c) == "path/filepath.IsAbs" {
+			anchor = c.Block()
+			break
+		}
+	}
+	if anchor == nil {
+		return append(out, RuleResult{"B-QUALIFIED", fn, "file branch", "", false, "no filepath.IsAbs test found to delimit the file branch"})
+	}
+	isEval := map[ssa.Value]bool{}
 	for _, ev := range evals {
-		seen := map[*ssa.BasicBlock]bool{}
-		var walk func(b *ssa.BasicBlock, from int)
-		walk = func(b *ssa.BasicBlock, from int) {
-			if from == 0 {
-				if seen[b] {
-					return
-				}
-				seen[b] = true
-			}
-			for i := from; i < len(b.Instrs); i++ {
-				rt, ok := b.Instrs[i].(*ssa.Return)
-				if !ok {
-					continue
-				}
-				if len(rt.Results) != 2 || !isNilConst(rt.Results[1]) {
-					return
-				}
-				n++
-				// the resolved path may pass through pure path normalisation (Clean, ToSlash/FromSlash, Abs)
-				rv := rt.Results[0]
-				for i := 0; i < 4; i++ {
-					if c, isCall := rv.(*ssa.Call); isCall && len(c.Call.Args) == 1 {
-						switch shortCallee(c) {
-						case "path/filepath.Clean", "path/filepath.ToSlash", "path/filepath.FromSlash", "path.Clean":
-							rv = c.Call.Args[0]
-							continue
-						}
-					}
-					if e2, isE := rv.(*ssa.Extract); isE && e2.Index == 0 {
-						if c, isCall := e2.Tuple.(*ssa.Call); isCall && shortCallee(c) == "path/filepath.Abs" && len(c.Call.Args) == 1 {
-							rv = c.Call.Args[0]
-							continue
-						}
-					}
-					break
-				}
-				ex, isEx := rv.(*ssa.Extract)
-				ok2 := isEx && ex.Tuple == ssa.Value(ev) && ex.Index == 0
-				why := "returns the resolved path"
-				if !ok2 {
-					why = "a success return after EvalSymlinks returns " + rt.Results[0].String() + ", not the resolved path: the link's own location becomes the base for the document's relative refs"
-				}
-				out = append(out, RuleResult{"B-QUALIFIED", fn, "the location returned is the one with symlinks resolved", a.P.InstrPos(rt), ok2, why})
-				return
-			}
-			for _, s := range b.Succs {
-				// do not follow the loop back edge to another candidate
-				if s == ev.Block() || s.Dominates(ev.Block()) {
-					continue
-				}
-				walk(s, 0)
-			}
+		isEval[ev] = true
+	}
+	n := 0
+	for _, b := range f.Blocks {
+		if !(anchor == b || anchor.Dominates(b)) {
+			continue
 		}
-		idx := 0
-		for i, in := range ev.Block().Instrs {
-			if in == ssa.Instruction(ev) {
-				idx = i + 1
+		for _, in := range b.Instrs {
+			rt, ok := in.(*ssa.Return)
+			if !ok || len(rt.Results) != 2 || !isNilConst(rt.Results[1]) {
+				continue
 			}
+			n++
+			// the resolved path may pass through pure path normalisation (Clean, ToSlash/FromSlash, Abs)
+			rv := rt.Results[0]
+			for i := 0; i < 4; i++ {
+				if c, isCall := rv.(*ssa.Call); isCall && len(c.Call.Args) == 1 {
+					switch shortCallee(c) {
+					case "path/filepath.Clean", "path/filepath.ToSlash", "path/filepath.FromSlash", "path.Clean":
+						rv = c.Call.Args[0]
+						continue
+					}
+				}
+				if e2, isE := rv.(*ssa.Extract); isE && e2.Index == 0 {
+					if c, isCall := e2.Tuple.(*ssa.Call); isCall && shortCallee(c) == "path/filepath.Abs" && len(c.Call.Args) == 1 {
+						rv = c.Call.Args[0]
+						continue
+					}
+				}
+				break
+			}
+			ex, isEx := rv.(*ssa.Extract)
+			ok2 := isEx && isEval[ex.Tuple] && ex.Index == 0
+			why := "returns the resolved path"
+			if !ok2 {
+				why = "a success return of the file branch returns " + rt.Results[0].String() + ", not the first result of filepath.EvalSymlinks: a location that still contains a link becomes the base for the document's relative refs"
+			}
+			out = append(out, RuleResult{"B-QUALIFIED", fn, fmt.Sprintf("success return #%d of the file branch returns the location with symlinks resolved", n), a.P.InstrPos(rt), ok2, why})
 		}
-		walk(ev.Block(), idx)
 	}
 	out = append(out, RuleResult{"B-QUALIFIED", fn, "success returns after EvalSymlinks", "", n >= 1, fmt.Sprintf("%d", n)})
 	return out
